@@ -11,8 +11,10 @@
 //   - an invalid (non-semver, non-empty) version that is never compared: first installation
 //     or overwrite — the statement lists "invalid version" as a reason for refusal but does
 //     not say that an uncompared version must be validated (the code accepts it);
-//   - a valid version installed without overwrite over a plugin whose own version is not a
-//     semantic version ("strictly higher" is undefined; the code refuses);
+//     (a valid version installed without overwrite over a plugin whose own version is not a
+//     semantic version is NOT open: the statement is "replaces only if the new version is
+//     strictly higher by semantic-version precedence", and no precedence is defined against
+//     something that is not a semantic version - so without overwrite nothing may be replaced);
 //   - a single NON-executable file as the source (the code refuses; an implementation that
 //     made it executable like it does for a directory's sole candidate would be as good);
 //   - a directory with exactly one executable notation-* file and a second, non-executable
@@ -202,7 +204,7 @@ func decide(s Src, b *Built, model map[string]*installed, overwrite bool) verdic
 		case "invalid":
 			return refuse("invalid-version")
 		case "old-invalid":
-			v.loose = append(v.loose, "existing-version-invalid")
+			return refuse("existing-version-not-comparable")
 		case "lt":
 			return refuse("lower")
 		case "eq":
@@ -607,12 +609,13 @@ func (m *machine) checkAnswers(rt *rapid.T, name string, want *pluginfw.GetMetad
 func (m *machine) checkInstalled(rt *rapid.T, src Src, b *Built, v verdict, before, after []Entry, existing, newMeta *pluginfw.GetMetadataResponse) {
 	if v.expect == "refuse" {
 		key := map[string]string{
-			"lower":             "C20:version-rule:lower-version-installed",
-			"equal":             "C20:version-rule:equal-version-installed",
-			"invalid-version":   "C20:version-rule:invalid-version-installed",
-			"invalid-metadata":  "C20:install:invalid-metadata-installed",
-			"misnamed-metadata": "C20:install:misnamed-metadata-installed",
-			"unusable-source":   "C20:install:unusable-source-installed",
+			"lower":                           "C20:version-rule:lower-version-installed",
+			"equal":                           "C20:version-rule:equal-version-installed",
+			"invalid-version":                 "C20:version-rule:invalid-version-installed",
+			"existing-version-not-comparable": "C20:version-rule:replaced-plugin-whose-version-is-not-comparable",
+			"invalid-metadata":                "C20:install:invalid-metadata-installed",
+			"misnamed-metadata":               "C20:install:misnamed-metadata-installed",
+			"unusable-source":                 "C20:install:unusable-source-installed",
 		}[v.reason]
 		m.fail(rt, key, "the model refuses this installation (%s, relation %s) but Install returned nil; new metadata %+v", v.reason, v.rel, newMeta)
 		m.dead = true
